@@ -63,6 +63,8 @@ static bool apply(std::vector<J>& slot, const mj::Value& op, std::string& err, b
         else if (o == "erase_range") { J& a = S(1); a.erase(a.array_range().begin() + op[2].as_int(), a.array_range().begin() + op[3].as_int()); }
         else if (o == "erase_member_at") { J& t = S(1); t.erase(t.object_range().begin() + op[2].as_int()); }
         else if (o == "erase_member_range") { J& t = S(1); t.erase(t.object_range().begin() + op[2].as_int(), t.object_range().begin() + op[3].as_int()); }
+        else if (o == "assign_elem") { J& t = S(1); t = t[(size_t)op[2].as_int()]; }
+        else if (o == "assign_member") { J& t = S(1); t = t.at(key(2)); }
         else if (o == "resize") { S(1).resize((size_t)op[2].as_int()); }
         else if (o == "clear") { S(1).clear(); }
         else if (o == "reserve") { S(1).reserve((size_t)op[2].as_int()); }
